@@ -3,7 +3,7 @@
    tools_seeded.py import <prop> <n> <src_dir> <i>   # verifies patch<i>/demo<i> in a fresh worktree, copies to seeded/<prop>-<n>/
    tools_seeded.py run <prop>-<n> [check-id ...]      # runs quick check(s) against a scratch worktree with the patch applied
 """
-import json, os, shutil, subprocess, sys, tempfile
+import json, shutil, os, shutil, subprocess, sys, tempfile
 HERE = os.path.dirname(os.path.abspath(__file__))
 DESEL = ["--deselect", "tests/test_fakes.py::test_get_result_batches", "--deselect", "tests/test_fakes.py::test_get_result_batches_dict"]
 
@@ -54,24 +54,26 @@ def cmd_import(prop, n, src, i):
         rm(wt)
 
 def cmd_run(name, checks):
+    """Runs from a scratch copy of /verif (so /verif's own evidence and replays are untouched) against a scratch worktree of /repo."""
+    import tempfile
     d = os.path.join(HERE, "seeded", name); meta = json.load(open(os.path.join(d, "meta.json")))
     checks = checks or [meta["property"]]
-    rep = os.path.join(HERE, "replays"); before = set(os.listdir(rep))
     wt = worktree()
+    vcopy = tempfile.mkdtemp(prefix="vf-seedv-", dir="/tmp")
     try:
         subprocess.run(["git", "-C", wt, "apply", os.path.join(d, "patch.diff")], check=True)
+        subprocess.run(["rsync", "-a", "--exclude", ".git", "--exclude", ".run", "--exclude", "seeded", HERE + "/", vcopy + "/"], check=True)
         for c in checks:
-            r = subprocess.run(["./check", c, "quick"], cwd=HERE, env={**os.environ, "VERIF_REPO": wt}, capture_output=True, text=True)
+            r = subprocess.run(["./check", c, "quick"], cwd=vcopy, env={**os.environ, "VERIF_REPO": wt}, capture_output=True, text=True)
             sigs = [l.strip()[11:] for l in r.stdout.splitlines() if l.strip().startswith("signature:")]
             verdict = {0: "MISSED", 1: "CAUGHT", 2: "HARNESS-ERROR"}.get(r.returncode, str(r.returncode))
             print(f"{name} vs {c}: {verdict} {sigs[:4]}")
             if r.returncode == 2: print(r.stderr[-800:])
-            meta["checks"][c] = {"quick": verdict, "signatures": sigs[:6]}
+            meta["checks"][c] = {"quick": verdict, "signatures": sorted(set(sigs))[:6]}
         json.dump(meta, open(os.path.join(d, "meta.json"), "w"), indent=1)
     finally:
         rm(wt)
-        for f in set(os.listdir(rep)) - before: os.remove(os.path.join(rep, f))
-        subprocess.run(["git", "-C", HERE, "checkout", "--", "evidence"], capture_output=True)
+        shutil.rmtree(vcopy, ignore_errors=True)
 
 if __name__ == "__main__":
     if sys.argv[1] == "import": sys.exit(cmd_import(sys.argv[2], sys.argv[3], sys.argv[4], sys.argv[5]))
